@@ -257,6 +257,13 @@ def gen_program(rnd):
                  apm.dotassign(("bin", "-", ("bin", "+", ("bin", "+", ("sym", "skpa7"), apm.num(2 * rnd.randrange(0, 4))), ("loc", lb)), ("loc", la))),
                  apm.label(la), apm.data(".byte", *[apm.num(uniq.next() & 0o377) for _ in range(m1)]), apm.label(lb), apm.data(".byte", apm.num(0o377)),
                  apm.label("skpb7"), apm.label(la), apm.data(".byte", *[apm.num(uniq.next() & 0o377) for _ in range(m2)]), apm.label(lb), apm.data(".byte", apm.num(0o125))]
+    if rnd.random() < 0.2:
+        # a helper file with PRIVATE names, included from two places (two files, or twice from one): every inclusion has a namespace of its own
+        aux["twice11.mac"] = apm.SrcFile("twice11.mac", [apm.label("twpriv"), apm.data(".word", ("sym", "twpriv"), apm.num(uniq.next() & 0o177777)),
+                                                          apm.assign("twk", apm.num(uniq.next() & 0o77777)), apm.data(".word", ("sym", "twk")),
+                                                          apm.label("1$"), apm.data(".word", ("loc", "1$"))])
+        for _ in range(2):
+            rnd.choice(files).stmts.append(apm.include("twice11.mac"))
     base = rnd.choice([0o1000, 0o2000, 0])
     files[0].stmts.insert(0, apm.link(apm.num(base)))
     return apm.Program(files, aux), plant
